@@ -3,6 +3,8 @@
 SPECIFICATION Spec
 CONSTANTS RootPostOverwrites = TRUE
           FallbackWritten = TRUE
+          CarryInvalid = TRUE
+          HackPositions = {}
           NR = 2
 INVARIANT Partition
 INVARIANT CardMeetsTarget
